@@ -482,8 +482,9 @@ Qed.
 Lemma meta_call_shape : forall m c, call_meta m = Ok (Some c) ->
   c = WriteMeta (WDict (JObj (m_content m))) (msec_enc m) (kw_opt (remap "meta" (m_opts m)) "meta_format").
 Proof.
-  intros [o ct] c H. unfold call_meta in H. unfold msec_enc. cbn [m_content m_opts] in *.
-  destruct (is_nil ct); [discriminate H|]. destruct (negb (only_keys _ _)); [discriminate H|]. injection H as <-. reflexivity.
+  intros [o ct] c H. rewrite call_meta_eq in H. unfold msec_enc. cbn [m_content m_opts] in *.
+  destruct (is_nil ct); [discriminate H|]. cbv zeta in H.
+  destruct (negb (only_keys _ _)); [discriminate H|]. injection H as <-. reflexivity.
 Qed.
 
 Lemma diff_call_shape : forall d c, call_diff d = Ok (Some c) ->
